@@ -20,7 +20,7 @@ check_oauth2_account_uuid_valid (C39 decides that they call it).
 import re
 from collections import defaultdict
 from .lib.hir import *
-from .lib.pathcond import site_conditions, implied, collect_binds, render, leaf_tokens, cond
+from .lib.pathcond import site_conditions, implied, collect_binds, render, leaf_tokens
 
 META = dict(
     technique="sink path-conditions on type-checked HIR (K3) + receiver-type who-may-read inventory (K1) + template check of the window predicate (K4)",
@@ -116,10 +116,6 @@ def guard_literal(lits, extra):
                 if lf[1] == "ok" or has_token(toks, "def", "core::option::Option::Some", "core::result::Result::Ok"):
                     return lf
     return None
-
-
-def true_is_return(fn_body, node):
-    return True
 
 
 def window_shape(fn, src_kind, from_name, exp_name):
@@ -233,9 +229,6 @@ def run(ctx):
         f = ctx.fn(LIB, fname)
         binds = collect_binds(f["body"])
         sites = site_conditions(f["body"], is_sink(kinds))
-        if fname.endswith("check_user_auth_token_valid") or fname.endswith("check_api_token_valid"):
-            # `true` literals that are the function's result (not initialisers of mutable flags / arguments)
-            sites = [(s, c) for (s, c) in sites]
         ctx.floor("K3-validity-gate", f"{short(fname, 2)}: release sinks", len(sites), minimum)
         seen_inst = defaultdict(int)
         for (s, conds) in sites:
